@@ -234,6 +234,16 @@ def step_harness():
     return os.path.join(BUILD, "target", "release", "vharness")
 
 
+def step_harness_debug():
+    """the same harness in cargo's dev profile (no optimisation): stack-depth probes only (registry.extra_checks)"""
+    hdir = os.path.join(ROOT, "harness")
+    with Lock("cargo"):
+        rc, out = sh("timeout 1500 cargo build --offline", cwd=hdir, timeout=1600)
+        if rc != 0:
+            raise Broken("unoptimised harness build against /repo", out[-800:])
+    return os.path.join(BUILD, "target", "debug", "vharness")
+
+
 # ---------------------------------------------------------------- step 5
 def _run_model_one(text):
     rc, out = sh("ulimit -s unlimited 2>/dev/null; exec " + os.path.join(BUILD, "model", "driver"),
@@ -574,6 +584,8 @@ def main():
     extra_lines = []
     if harness and not replay:
         try:
+            if prop in registry.DEBUG_PROBE_PROPS:
+                step_harness_debug()
             extra_failures, extra_lines, extra_stats = registry.extra_checks(prop, tier, seed, harness, sh)
             for ef in extra_failures:
                 failures.append(ef)
